@@ -4,10 +4,13 @@ package sim
 
 import (
 	"bytes"
+	"context"
 	"fmt"
 	"os"
 	"runtime"
 	"strconv"
+	"sync"
+	"time"
 )
 
 // helperMain runs auxiliary roles of the harness binary (controller helpers etc.).
@@ -32,3 +35,45 @@ func goid() int {
 	id, _ := strconv.Atoi(string(f[1]))
 	return id
 }
+
+// endableCtx is a context the simulator ends at an instant of its choosing, either as a cancellation
+// or as an expired deadline (same instant, other Err): code that tells the two apart must treat both
+// as "the caller wants the run to end".
+type endableCtx struct {
+	mu       sync.Mutex
+	done     chan struct{}
+	err      error
+	deadline bool
+}
+
+func newEndableCtx(asDeadline bool) (context.Context, context.CancelFunc) {
+	e := &endableCtx{done: make(chan struct{}), deadline: asDeadline}
+	return e, e.end
+}
+
+func (e *endableCtx) end() {
+	e.mu.Lock()
+	defer e.mu.Unlock()
+	if e.err != nil {
+		return
+	}
+	e.err = context.Canceled
+	if e.deadline {
+		e.err = context.DeadlineExceeded
+	}
+	close(e.done)
+}
+
+func (e *endableCtx) Deadline() (time.Time, bool) {
+	if e.deadline {
+		return time.Now().Add(time.Hour), true
+	}
+	return time.Time{}, false
+}
+func (e *endableCtx) Done() <-chan struct{} { return e.done }
+func (e *endableCtx) Err() error {
+	e.mu.Lock()
+	defer e.mu.Unlock()
+	return e.err
+}
+func (e *endableCtx) Value(any) any { return nil }
